@@ -464,7 +464,7 @@ func cmdCheck(args []string) int {
 				lines = append(lines, "TOOL-ERROR "+br.ToolError)
 				ent["tool_error"] = br.ToolError
 			}
-			var vnames, knames []string
+			vnames, knames := []string{}, []string{}
 			for _, v := range br.Violations {
 				isKnown := false
 				for _, kf := range known {
@@ -566,7 +566,7 @@ func cmdCheck(args []string) int {
 		os.WriteFile(filepath.Join(verifDir, "evidence", *prop+".json"), data, 0o644)
 	}
 	fmt.Printf("%s %s: %d/%d obligations discharged, %d canaries, %d violations, %d known findings, %d tool errors, %.1fs (load %.1fs, generate %.1fs)\n",
-		*prop, tier, discharged, total, mustFail, violations, len(knownHit), toolErrors, wall, tLoad, tGen)
+		*prop, tier, discharged, total, mustFail, violations, len(knownHit)+len(boundedKnown), toolErrors, wall, tLoad, tGen)
 	if *verbose {
 		for _, o := range obls {
 			fmt.Printf("  %-8s %-7s %6.2fs %7dB %s\n", o.Status, o.Solver, o.Seconds, o.Bytes, o.Name)
